@@ -102,6 +102,8 @@ fn construct(cfg: &Value) -> Result<Option<TimeoutSettings>, String> {
 fn entry_name(e: &str) -> String {
     match e {
         "valve" => "valve::query".to_string(),
+        "mcauto" => "mc::query".to_string(),
+        "mclegacyauto" => "mc::query_legacy".to_string(),
         x => format!("proto:{x}"),
     }
 }
@@ -283,6 +285,12 @@ fn call_with_timeouts(name: &str, cfg: &Value, script: &ScriptJ, t: TimeoutSetti
     }
     use gamedig::games::{ffow, jc2m, mindustry, minecraft, savage2};
     use gamedig::protocols::{gamespy, quake, unreal2};
+    if name == "mc::query" {
+        return run_call(script, m, || minecraft::protocol::query(&a, ts, None));
+    }
+    if name == "mc::query_legacy" {
+        return run_call(script, m, || minecraft::protocol::query_legacy(&a, ts));
+    }
     match name.strip_prefix("proto:").unwrap() {
         "quake2" => run_call(script, m, || quake::two::query(&a, ts)),
         "gs1" => run_call(script, m, || gamespy::one::query(&a, ts)),
